@@ -32,6 +32,7 @@ class Sys3:
         self._regw = sum(len(r) for r in regs)
         self.last_obs = None
         self._cache = None
+        self._last_in = 0                 # all inputs are 0 in a fresh simulator
         self.regs, self.md = list(regs), md
         self.clocks, self.arsts, self.sync_inputs = list(clocks), list(arsts), list(sync_inputs)
         self._regs = Cat(*self.regs)
@@ -187,7 +188,9 @@ class C03Spec:
         inp, kind, arg = a
         mdl = self.model
         ctx = sysm.ctx
-        ctx.set(sysm._in, inp)
+        if sysm._last_in != inp:          # (only step() ever drives these inputs; load() leaves them alone)
+            ctx.set(sysm._in, inp)
+            sysm._last_in = inp
         allowed, flags, lv2 = mdl.step(m, inp, kind, arg)
         # the single level event (never together with the data inputs)
         if kind == "c":
